@@ -1,7 +1,7 @@
 #!/bin/bash
 # runs every check of one tier sequentially; prints one line per check
 tier=${1:-quick}
-cd /verif
+cd "$(dirname "$0")/.."
 for id in C01 C02 C03 C04 C05 C06 C07 C08 C09 C10 C11 C12 C13 C14 C15 C16 C17 C18; do
   s=$(date +%s.%N)
   out=$(./check $id $tier 2>&1); rc=$?
